@@ -12,6 +12,7 @@ import (
 	"bytes"
 
 	"git.sr.ht/~rockorager/vaxis"
+	"github.com/rivo/uniseg"
 	"git.sr.ht/~rockorager/vaxis/ansi"
 	"git.sr.ht/~rockorager/vaxis/widgets/term"
 	"verifharness/cmd/C05/emuh"
@@ -616,6 +617,14 @@ func run(r *hx.Run) error {
 			return err
 		}
 		r.Emit(fmt.Sprintf("dict %s:%d %s:%d", hx.Hex(pair[0]), s.vx.RenderedWidth(pair[0]), hx.Hex(pair[1]), s.vx.RenderedWidth(pair[1])), "-")
+		// what the emulator's parser does with the two graphemes written back to back (uniseg, the
+		// parameter `merges` / `cat` of Model.C12Compose.clusterToks): the composition stream then runs
+		// the clustering wire opsOfToksM and is compared with the real emulator also in these cases
+		if cl, _, _, _ := uniseg.FirstGraphemeClusterInString(pair[0]+pair[1], -1); cl != pair[0] {
+			r.Emit(fmt.Sprintf("merges %s %s %s", hx.Hex(pair[0]), hx.Hex(pair[1]), hx.Hex(cl)), "-")
+			r.Emit(fmt.Sprintf("dict %s:%d", hx.Hex(cl), s.vx.RenderedWidth(cl)), "-")
+			r.Count("merges-declared")
+		}
 		win := s.vx.Window()
 		w0 := s.vx.RenderedWidth(pair[0])
 		if w0 < 1 {
